@@ -386,12 +386,36 @@ def gen_swarm(rng, tier="quick"):
     if tier == "thorough" and rng.random() < 0.25:
         nops = rng.randint(6, 10)
     faulty = rng.random() < 0.55
-    return {"w": w, "nops": nops, "faulty": faulty, "pfault": rng.choice([0.2, 0.35, 0.5])}
+    sw = {"w": w, "nops": nops, "faulty": faulty, "pfault": rng.choice([0.2, 0.35, 0.5])}
+    if rng.random() < 0.15:
+        # "echo" histories: some operations, (mostly) a rollback, then some of the very same operations with
+        # the very same arguments again -- whatever an operation remembers from its first application (a design,
+        # a length, a buffer) must not leak into the second one
+        k = rng.choice([1, 2, 2, 3])
+        first = [rng.choice(["decimate", "detrend", "filter"]) for _ in range(k)]
+        again = sorted(rng.sample(range(k), rng.randint(1, k)))
+        plan = ["fresh:" + x for x in first]
+        if rng.random() < 0.75:
+            plan.append("rollback")
+        elif rng.random() < 0.5:
+            plan.append("add")
+        plan += [f"repeat:{j}" for j in again] + ["add"]
+        sw["echo"] = plan
+        sw["nops"] = len(plan)
+    return sw
 
 
-def gen_op(rng, m: Model, swarm, nalg):
+def gen_op(rng, m: Model, swarm, nalg, prev=(), step=0):
     ks = [k for k in OPKINDS if swarm["w"][k] > 0]
     k = rng.choices(ks, weights=[swarm["w"][x] for x in ks])[0]
+    echo = swarm.get("echo")
+    if echo and step < len(echo):
+        tok = echo[step]
+        if tok.startswith("repeat:"):
+            op = copy.deepcopy(prev[int(tok[7:])])
+            op.pop("fault", None)
+            return op
+        k = tok[6:] if tok.startswith("fresh:") else tok
     nmin = min(d.shape[0] for d in m.ds)
     if k == "decimate":
         op = {"op": k, "q": rng.randint(2, 5)}
@@ -595,7 +619,7 @@ def run_case(seed, tier="quick", case=None, known=()):
         step += 1
         if stop:
             break
-        op = copy.deepcopy(ops_in[step]) if ops_in is not None else gen_op(rng, m, swarm, nalg)
+        op = copy.deepcopy(ops_in[step]) if ops_in is not None else gen_op(rng, m, swarm, nalg, res["ops"], step)
         if ops_in is None and step == nops - 1 and "fault" in op and not extended:
             nops += 1  # bounded liveness: one more operation after the last fault must match the model again
             extended = True
